@@ -58,7 +58,7 @@ use barter_instrument::{
     asset::{AssetIndex, name::AssetNameExchange},
     exchange::{ExchangeId, ExchangeIndex},
     index::IndexedInstruments,
-    instrument::{Instrument, InstrumentIndex},
+    instrument::{Instrument, InstrumentIndex, name::InstrumentNameInternal},
 };
 use barter_integration::{collection::one_or_many::OneOrMany, snapshot::SnapUpdates};
 use parking_lot::Mutex;
@@ -68,8 +68,18 @@ use serde_json::{Value, json};
 use std::{sync::Arc, time::Duration};
 use vh::util::*;
 
-// deliberately NOT ExchangeId::Mock: the mock client's own `EXCHANGE` constant must never leak into the link's identity
-const EXCHANGE: ExchangeId = ExchangeId::BinanceSpot;
+// deliberately NOT ExchangeId::Mock: the mock client's own `EXCHANGE` constant must never leak into the link's identity.
+// TWO exchanges, each with its own request channel, ExecutionManager, MockExecution client and MockExchange task.
+const EXCHANGES: [ExchangeId; 2] = [ExchangeId::BinanceSpot, ExchangeId::Kraken];
+
+/// One instrument of the system: where it lives and where the builder indexed it.
+#[derive(Clone)]
+struct Inst {
+    ex: ExchangeId,
+    exi: ExchangeIndex,
+    idx: InstrumentIndex,
+    price: i64,
+}
 type State = EngineState<DefaultGlobalData, DefaultInstrumentMarketData>;
 
 fn order_kind(s: &ActiveOrderState) -> &'static str {
@@ -103,13 +113,13 @@ impl AlgoStrategy for Observer {
             }
         }
         let bal: serde_json::Map<String, Value> = state.assets.0.iter().map(|(k, a)| {
-            (format!("bal_{}", k.asset), match &a.balance {
+            (format!("bal_{}_{}", k.exchange.as_str(), k.asset), match &a.balance {
                 None => json!({"has": false, "t": 0, "v": 0}),
                 Some(b) => json!({"has": true, "t": untime_ms(b.time), "v": dec_units(b.value.total, 1000)}),
             })
         }).collect();
-        let conn: Vec<Value> = state.connectivity.exchanges.values()
-            .map(|c| json!({"market": c.market_data == Health::Healthy, "account": c.account == Health::Healthy})).collect();
+        let conn: serde_json::Map<String, Value> = state.connectivity.exchanges.iter()
+            .map(|(ex, c)| (ex.as_str().to_string(), json!({"market": c.market_data == Health::Healthy, "account": c.account == Health::Healthy}))).collect();
         self.views.lock().push(json!({"orders": m, "bal": bal, "conn": conn, "global": state.connectivity.global == Health::Healthy}));
         (std::iter::empty(), std::iter::empty())
     }
@@ -144,26 +154,54 @@ impl<Clock, ExecutionTxs, Risk> OnTradingDisabled<Clock, State, ExecutionTxs, Ri
     fn on_trading_disabled(_: &mut Engine<Clock, State, ExecutionTxs, Self, Risk>) -> Self::OnTradingDisabled {}
 }
 
+/// (exchange, internal name, exchange name, base, price): the same two markets on both exchanges,
+/// under different exchange names, at different prices
+const MARKETS: [(usize, &str, &str, &str, i64); 4] = [
+    (0, "mock_btc_usdt", "BTCUSDT", "btc", 100),
+    (0, "mock_eth_usdt", "ETHUSDT", "eth", 10),
+    (1, "kr_btc_usdt", "XBT/USDT", "btc", 90),
+    (1, "kr_eth_usdt", "ETH/USDT", "eth", 12),
+];
+
 fn instruments() -> IndexedInstruments {
-    IndexedInstruments::builder()
-        .add_instrument(Instrument::spot(EXCHANGE, "mock_btc_usdt", "BTCUSDT", Underlying::new("btc", "usdt"), None))
-        .add_instrument(Instrument::spot(EXCHANGE, "mock_eth_usdt", "ETHUSDT", Underlying::new("eth", "usdt"), None))
+    MARKETS
+        .iter()
+        .fold(IndexedInstruments::builder(), |b, (x, name, name_ex, base, _)| {
+            b.add_instrument(Instrument::spot(EXCHANGES[*x], *name, *name_ex, Underlying::new(*base, "usdt"), None))
+        })
         .build()
 }
 
-fn mock_config(latency_ms: u64) -> MockExecutionConfig {
-    let bal = |a: &str, x: i64| AssetBalance { asset: AssetNameExchange::new(a), balance: Balance { total: dec(x), free: dec(x) }, time_exchange: time(0) };
+fn insts(indexed: &IndexedInstruments) -> Vec<Inst> {
+    MARKETS
+        .iter()
+        .map(|(x, name, _, _, price)| Inst {
+            ex: EXCHANGES[*x],
+            exi: indexed.find_exchange_index(EXCHANGES[*x]).expect("exchange indexed"),
+            idx: indexed.find_instrument_index(EXCHANGES[*x], &InstrumentNameInternal::new(*name)).expect("instrument indexed"),
+            price: *price,
+        })
+        .collect()
+}
+
+/// the account each exchange starts with (different on purpose: cross-talk between the two links is visible)
+fn funds(x: usize) -> [(&'static str, i64); 3] {
+    if x == 0 { [("btc", 5), ("eth", 5), ("usdt", 3000)] } else { [("btc", 7), ("eth", 3), ("usdt", 2000)] }
+}
+
+fn mock_config(x: usize, latency_ms: u64) -> MockExecutionConfig {
+    let bal = |a: &str, v: i64| AssetBalance { asset: AssetNameExchange::new(a), balance: Balance { total: dec(v), free: dec(v) }, time_exchange: time(0) };
     MockExecutionConfig {
-        mocked_exchange: EXCHANGE,
+        mocked_exchange: EXCHANGES[x],
         // small enough that some orders cannot be afforded (-> rejected)
-        initial_state: UnindexedAccountSnapshot { exchange: EXCHANGE, balances: vec![bal("btc", 5), bal("eth", 5), bal("usdt", 3000)], instruments: vec![] },
+        initial_state: UnindexedAccountSnapshot { exchange: EXCHANGES[x], balances: funds(x).iter().map(|(a, v)| bal(a, *v)).collect(), instruments: vec![] },
         latency_ms,
         fees_percent: Decimal::new(1, 2),
     }
 }
 
-fn key(inst: usize, cid: &str) -> OrderKey {
-    OrderKey { exchange: ExchangeIndex(0), instrument: InstrumentIndex(inst), strategy: StrategyId::new("sys"), cid: ClientOrderId::new(cid) }
+fn key(inst: &Inst, cid: &str) -> OrderKey {
+    OrderKey { exchange: inst.exi, instrument: inst.idx, strategy: StrategyId::new("sys"), cid: ClientOrderId::new(cid) }
 }
 
 #[tokio::main(flavor = "multi_thread", worker_threads = 3)]
@@ -177,13 +215,15 @@ async fn main() {
     let mut out = Out::create(args.req("out"));
 
     let instruments = instruments();
+    let insts = insts(&instruments);
     let (mtx, mrx) = tokio::sync::mpsc::unbounded_channel::<MarketStreamEvent<InstrumentIndex, DataKind>>();
     let market_stream = tokio_stream::wrappers::UnboundedReceiverStream::new(mrx);
     let views = Arc::new(Mutex::new(vec![]));
     let strategy = Observer { id: StrategyId::new("sys"), views: views.clone() };
     let sys_args = SystemArgs::new(
         &instruments,
-        vec![ExecutionConfig::Mock(mock_config(args.u64("latency", 2)))],
+        // the second link is a little slower, so answers of the two exchanges overtake one another
+        vec![ExecutionConfig::Mock(mock_config(0, args.u64("latency", 2))), ExecutionConfig::Mock(mock_config(1, args.u64("latency", 2) + 1))],
         HistoricalClock::new(time(0)),
         strategy,
         DefaultRiskManager::<State>::default(),
@@ -196,8 +236,7 @@ async fn main() {
         .audit_mode(AuditMode::Enabled)
         .trading_state(TradingState::Enabled) // so that the observer is called after every event
         // balances seeded through the builder, as a user of SystemBuilder would (same as the mock's account)
-        .balances([(EXCHANGE, "btc", Balance { total: dec(5), free: dec(5) }), (EXCHANGE, "eth", Balance { total: dec(5), free: dec(5) }),
-                   (EXCHANGE, "usdt", Balance { total: dec(3000), free: dec(3000) })])
+        .balances((0..2).flat_map(|x| funds(x).into_iter().map(move |(a, v)| (EXCHANGES[x], a, Balance { total: dec(v), free: dec(v) }))))
         .build::<EngineEvent, _>()
         .unwrap_or_else(|e| usage(&format!("system build: {e:?}")))
         .init_with_runtime(tokio::runtime::Handle::current())
@@ -208,7 +247,7 @@ async fn main() {
     let mut fresh = args.get("fresh-out").map(Out::create);
     let seeded: Vec<(String, i64, Value)> = audit_snapshot.event.assets.0.iter().map(|(k, a)| {
         let b = a.balance.as_ref();
-        (format!("bal_{}", k.asset), b.map(|b| untime_ms(b.time)).unwrap_or(-1), b.map(|b| dec_units(b.value.total, 1000)).unwrap_or(json!(-1)))
+        (format!("bal_{}_{}", k.exchange.as_str(), k.asset), b.map(|b| untime_ms(b.time)).unwrap_or(-1), b.map(|b| dec_units(b.value.total, 1000)).unwrap_or(json!(-1)))
     }).collect();
     if let Some(f) = fresh.as_mut() {
         let none: serde_json::Map<String, Value> = seeded.iter().map(|(k, _, _)| (k.clone(), json!({"has": false, "t": 0, "v": 0}))).collect();
@@ -226,39 +265,77 @@ async fn main() {
 
     // ---- drive
     let mut next_id = 0usize;
+    let mut mixed_batches = 0usize;
     let mut used: Vec<(usize, String)> = vec![];
     let mut t = 0i64;
-    let price = |inst: usize| if inst == 0 { 100 } else { 10 };
-    for inst in 0..2 {
+    let n_inst = insts.len();
+    for inst in insts.iter() {
         t += 1;
-        let _ = mtx.send(MarketStreamEvent::Item(MarketEvent { time_exchange: time(t), time_received: time(t), exchange: EXCHANGE, instrument: InstrumentIndex(inst),
-            kind: DataKind::Trade(PublicTrade { id: format!("m{t}"), price: price(inst) as f64, amount: 1.0, side: Side::Buy }) }));
+        let _ = mtx.send(MarketStreamEvent::Item(MarketEvent { time_exchange: time(t), time_received: time(t), exchange: inst.ex, instrument: inst.idx,
+            kind: DataKind::Trade(PublicTrade { id: format!("m{t}"), price: inst.price as f64, amount: 1.0, side: Side::Buy }) }));
+    }
+    // one open request; the caller decides whether it travels alone or in a batch spanning exchanges
+    let new_open = |rng: &mut rand::rngs::StdRng, next_id: &mut usize, used: &mut Vec<(usize, String)>, inst: usize| {
+        *next_id += 1;
+        let cid = format!("k{next_id}");
+        let (kind, tif) = if rng.random_range(0..5) == 0 { (OrderKind::Limit, TimeInForce::GoodUntilCancelled { post_only: false }) } else { (OrderKind::Market, TimeInForce::ImmediateOrCancel) };
+        let qty = if rng.random_range(0..6) == 0 { 1000 } else { 1 };
+        used.push((inst, cid.clone()));
+        OrderRequestOpen {
+            key: key(&insts[inst], &cid),
+            state: RequestOpen { side: if rng.random_bool(0.6) { Side::Buy } else { Side::Sell }, price: dec(insts[inst].price), quantity: dec(qty), kind, time_in_force: tif },
+        }
+    };
+    // a panic inside the system under test is data: a command that cannot be delivered because the engine
+    // task has ended (e.g. after a component of the system died) is recorded, and the run goes on to shutdown
+    let mut dead: Option<String> = None;
+    macro_rules! cmd {
+        ($e:expr) => {
+            if dead.is_none() {
+                if let Err(p) = catch(|| $e) {
+                    dead = Some(p);
+                }
+            }
+        };
     }
     for _ in 0..rounds {
         match rng.random_range(0..100) {
-            0..=44 if next_id < 40 => {
+            0..=34 if next_id < 38 => {
                 // open: a market order (fills), sometimes a limit order (rejected by the mock) or one it cannot afford
-                next_id += 1;
-                let cid = format!("k{next_id}");
-                let inst = rng.random_range(0..2usize);
-                let (kind, tif) = if rng.random_range(0..5) == 0 { (OrderKind::Limit, TimeInForce::GoodUntilCancelled { post_only: false }) } else { (OrderKind::Market, TimeInForce::ImmediateOrCancel) };
-                let qty = if rng.random_range(0..6) == 0 { 1000 } else { 1 };
-                used.push((inst, cid.clone()));
-                system.send_open_requests(OneOrMany::One(OrderRequestOpen {
-                    key: key(inst, &cid),
-                    state: RequestOpen { side: if rng.random_bool(0.6) { Side::Buy } else { Side::Sell }, price: dec(price(inst)), quantity: dec(qty), kind, time_in_force: tif },
-                }));
+                let inst = rng.random_range(0..n_inst);
+                let req = new_open(&mut rng, &mut next_id, &mut used, inst);
+                cmd!(system.send_open_requests(OneOrMany::One(req)));
             }
-            45..=69 if !used.is_empty() => {
+            35..=44 if next_id < 37 => {
+                // ONE command carrying requests for instruments of BOTH exchanges (in either order)
+                mixed_batches += 1;
+                let first = rng.random_range(0..n_inst);
+                let mut batch = vec![new_open(&mut rng, &mut next_id, &mut used, first)];
+                let other: Vec<usize> = (0..n_inst).filter(|i| insts[*i].ex != insts[first].ex).collect();
+                let second = other[rng.random_range(0..other.len())];
+                batch.push(new_open(&mut rng, &mut next_id, &mut used, second));
+                if rng.random_bool(0.4) {
+                    let third = rng.random_range(0..n_inst);
+                    batch.push(new_open(&mut rng, &mut next_id, &mut used, third));
+                }
+                cmd!(system.send_open_requests(OneOrMany::Many(batch)));
+            }
+            45..=64 if !used.is_empty() => {
                 let (inst, cid) = used[rng.random_range(0..used.len())].clone();
-                system.send_cancel_requests(OneOrMany::One(OrderRequestCancel { key: key(inst, &cid), state: RequestCancel { id: rng.random_bool(0.5).then(|| OrderId::new("x")) } }));
+                let id = rng.random_bool(0.5).then(|| OrderId::new("x"));
+                cmd!(system.send_cancel_requests(OneOrMany::One(OrderRequestCancel { key: key(&insts[inst], &cid), state: RequestCancel { id } })));
             }
-            70..=79 => system.cancel_orders(InstrumentFilter::None),
+            65..=69 if used.len() >= 2 => {
+                // cancels for ids of both exchanges in one command
+                let picks: Vec<(usize, String)> = (0..3).map(|_| used[rng.random_range(0..used.len())].clone()).collect();
+                cmd!(system.send_cancel_requests(OneOrMany::Many(picks.iter().map(|(inst, cid)| OrderRequestCancel { key: key(&insts[*inst], cid), state: RequestCancel { id: None } }).collect())));
+            }
+            70..=79 => cmd!(system.cancel_orders(InstrumentFilter::None)),
             80..=89 => {
                 t += 1;
-                let inst = rng.random_range(0..2usize);
-                let _ = mtx.send(MarketStreamEvent::Item(MarketEvent { time_exchange: time(t), time_received: time(t), exchange: EXCHANGE, instrument: InstrumentIndex(inst),
-                    kind: DataKind::Trade(PublicTrade { id: format!("m{t}"), price: price(inst) as f64, amount: 1.0, side: Side::Sell }) }));
+                let inst = &insts[rng.random_range(0..n_inst)];
+                let _ = mtx.send(MarketStreamEvent::Item(MarketEvent { time_exchange: time(t), time_received: time(t), exchange: inst.ex, instrument: inst.idx,
+                    kind: DataKind::Trade(PublicTrade { id: format!("m{t}"), price: inst.price as f64, amount: 1.0, side: Side::Sell }) }));
             }
             _ => {}
         }
@@ -267,6 +344,9 @@ async fn main() {
             1 => tokio::task::yield_now().await,
             _ => {}
         }
+    }
+    if let Some(p) = &dead {
+        out.line(&json!({"a": "Anomaly", "anomaly": format!("a command could not be handed to the system: {p} (the engine task had ended although no shutdown was requested)")}));
     }
     // ---- quiescence, then shutdown
     // adaptive: quiescent once the engine has processed nothing new for 1.5 s (longer than the
@@ -284,15 +364,27 @@ async fn main() {
     // ---- the execution link of the exchange goes down: kill the (mock) exchange task and wait for the
     // engine to process the account-stream disconnect notice
     let drop_link = args.u64("drop-link", 1) == 1;
+    let mut killed: Vec<&'static str> = vec![];
     if drop_link {
-        for h in system.handles.execution.mock_exchanges.iter() {
-            h.abort();
+        // one link after the other (which one first depends on the seed), each time waiting for the
+        // engine to have processed something (the notice) and a little longer
+        let mut order: Vec<usize> = (0..system.handles.execution.mock_exchanges.len()).collect();
+        if args.u64("seed", 1) % 3 == 0 {
+            order.reverse();
         }
-        let t_drop = std::time::Instant::now();
-        while views.lock().len() == n_before_shutdown && t_drop.elapsed() < Duration::from_secs(10) {
-            tokio::time::sleep(Duration::from_millis(50)).await;
+        if args.u64("seed", 1) % 5 == 4 {
+            order.truncate(1); // sometimes only one of the two links dies
         }
-        tokio::time::sleep(Duration::from_millis(100)).await;
+        for x in order {
+            let before = views.lock().len();
+            system.handles.execution.mock_exchanges[x].abort();
+            killed.push(EXCHANGES[x].as_str());
+            let t_drop = std::time::Instant::now();
+            while views.lock().len() == before && t_drop.elapsed() < Duration::from_secs(10) {
+                tokio::time::sleep(Duration::from_millis(50)).await;
+            }
+            tokio::time::sleep(Duration::from_millis(150)).await;
+        }
     }
     // a panic inside the system under test is data (e.g. the engine task died, so `shutdown` cannot
     // reach it any more): catch it and report it as an anomaly line
@@ -321,6 +413,7 @@ async fn main() {
     }
 
     // ---- the audit stream -> trace lines
+    let ex_name = |i: ExchangeIndex| instruments.find_exchange(i).map(|e| e.as_str()).unwrap_or("?");
     let views = views.lock().clone();
     let mut vi = 0usize;
     let mut ticks = 0usize;
@@ -332,26 +425,23 @@ async fn main() {
         for o in p.outputs.iter() {
             if let EngineOutput::Commanded(a) = o {
                 match a {
-                    ActionOutput::OpenOrders(s) => s.sent.iter().for_each(|r| lines.push(json!({"a": "SendOpen", "c": r.key.cid.0.as_str()}))),
+                    ActionOutput::OpenOrders(s) => s.sent.iter().for_each(|r| lines.push(json!({"a": "SendOpen", "c": r.key.cid.0.as_str(), "x": ex_name(r.key.exchange)}))),
                     ActionOutput::CancelOrders(s) => s.sent.iter().for_each(|r| lines.push(json!({"a": "SendCancel", "c": r.key.cid.0.as_str()}))),
                     ActionOutput::ClosePositions(s) => {
                         s.cancels.sent.iter().for_each(|r| lines.push(json!({"a": "SendCancel", "c": r.key.cid.0.as_str()})));
-                        s.opens.sent.iter().for_each(|r| lines.push(json!({"a": "SendOpen", "c": r.key.cid.0.as_str()})));
+                        s.opens.sent.iter().for_each(|r| lines.push(json!({"a": "SendOpen", "c": r.key.cid.0.as_str(), "x": ex_name(r.key.exchange)})));
                     }
                     ActionOutput::GenerateAlgoOrders(_) => {}
                 }
             }
         }
         if let EngineEvent::Account(AccountStreamEvent::Reconnecting(ex)) = &p.event {
-            let v = views.get(vi);
-            lines.push(json!({"a": "LinkDown", "notice_for_own_exchange": *ex == EXCHANGE,
-                              "account_link_down": v.map(|v| v["conn"][0]["account"] == json!(false)).unwrap_or(false),
-                              "global_down": v.map(|v| v["global"] == json!(false)).unwrap_or(false)}));
+            lines.push(json!({"a": "LinkDown", "x": ex.as_str()}));
             link_notices += 1;
         }
         if let (Some(f), EngineEvent::Account(AccountStreamEvent::Item(ev))) = (fresh.as_mut(), &p.event) {
             let msg = |b: &AssetBalance<AssetIndex>| {
-                let name = audit_snapshot.event.assets.0.get_index(b.asset.index()).map(|(k, _)| format!("bal_{}", k.asset)).unwrap_or_else(|| "bal_?".into());
+                let name = audit_snapshot.event.assets.0.get_index(b.asset.index()).map(|(k, _)| format!("bal_{}_{}", k.exchange.as_str(), k.asset)).unwrap_or_else(|| "bal_?".into());
                 json!({"item": name, "t": untime_ms(b.time_exchange), "v": dec_units(b.balance.total, 1000)})
             };
             let ms: Vec<Value> = match &ev.kind {
@@ -367,6 +457,7 @@ async fn main() {
             }
         }
         if let EngineEvent::Account(AccountStreamEvent::Item(ev)) = &p.event {
+            lines.push(json!({"a": "Item", "x": ex_name(ev.exchange)}));
             match &ev.kind {
                 AccountEventKind::OrderSnapshot(s) => {
                     let kind = match &s.0.state {
@@ -375,9 +466,10 @@ async fn main() {
                         OrderState::Inactive(InactiveOrderState::OpenFailed(_)) => "open_failed",
                         OrderState::Inactive(_) => "open_filled",
                     };
-                    lines.push(json!({"a": "Process", "c": s.0.key.cid.0.as_str(), "kind": kind}));
+                    lines.push(json!({"a": "Process", "c": s.0.key.cid.0.as_str(), "kind": kind, "x": ex_name(ev.exchange), "key_x": ex_name(s.0.key.exchange)}));
                 }
-                AccountEventKind::OrderCancelled(r) => lines.push(json!({"a": "Process", "c": r.key.cid.0.as_str(), "kind": if r.state.is_ok() { "cancel_ok" } else { "cancel_err" }})),
+                AccountEventKind::OrderCancelled(r) => lines.push(json!({"a": "Process", "c": r.key.cid.0.as_str(), "kind": if r.state.is_ok() { "cancel_ok" } else { "cancel_err" },
+                                                                          "x": ex_name(ev.exchange), "key_x": ex_name(r.key.exchange)})),
                 _ => {}
             }
         }
@@ -385,7 +477,9 @@ async fn main() {
         let is_shutdown = matches!(&p.event, EngineEvent::Shutdown(_));
         if !is_shutdown {
             if let Some(v) = views.get(vi) {
-                lines.push(json!({"a": "State", "post": v["orders"]}));
+                let conn: serde_json::Map<String, Value> = v["conn"].as_object().map(|m| m.iter().map(|(k, c)| (k.clone(), c["account"].clone())).collect()).unwrap_or_default();
+                let market: serde_json::Map<String, Value> = v["conn"].as_object().map(|m| m.iter().map(|(k, c)| (k.clone(), c["market"].clone())).collect()).unwrap_or_default();
+                lines.push(json!({"a": "State", "post": v["orders"], "conn": conn, "market": market, "global": v["global"]}));
             } else {
                 lines.push(json!({"a": "Anomaly", "anomaly": "an audit record without a matching strategy call (trading enabled)"}));
             }
@@ -400,9 +494,10 @@ async fn main() {
     }
     if drop_link {
         // exactly one disconnect notice must have reached the engine for the killed link
-        out.line(&json!({"a": "LinkDownCount", "n": link_notices}));
+        out.line(&json!({"a": "LinkDownCount", "killed": killed, "n": link_notices}));
     }
     let n = out.finish();
     let nf = fresh.map(|f| f.finish()).unwrap_or(0);
-    println!("{}", json!({"lines": n, "fresh_lines": nf, "audit_records": ticks, "strategy_views": views.len(), "opens": next_id, "link_notices": link_notices}));
+    println!("{}", json!({"lines": n, "fresh_lines": nf, "audit_records": ticks, "strategy_views": views.len(), "opens": next_id, "link_notices": link_notices,
+                            "commands_spanning_both_exchanges": mixed_batches, "links_killed": killed.len()}));
 }
